@@ -299,6 +299,10 @@ let step (ss : sess) (t : str array) : str =
     ss.states.(ss.cur) <- (if t.(1) = "on" then (match s.rlog with None -> set_rlog s (Some []) | Some _ -> s) else set_rlog s None); "ok"
   | "limits" ->
     ss.states.(ss.cur) <- set_limits (set_meter s Z0) (optz t.(1)) (optz t.(3)) (optz t.(2)); "ok"
+  | "stacklimit" ->
+    ss.states.(ss.cur) <- set_limits s s.insn_limit s.heap_limit (optz t.(1)); "ok"
+  | "heaplimit" ->
+    ss.states.(ss.cur) <- set_limits s s.insn_limit (optz t.(1)) s.stack_limit; "ok"
   | "insnlimit" ->
     ss.states.(ss.cur) <- set_limits (set_meter s Z0) (optz t.(1)) s.heap_limit s.stack_limit; "ok"
   | "input" ->
